@@ -437,4 +437,205 @@ theorem modifiersP_sat (h : G ts e s) :
   refine Sat.pure ⟨g1, c1, ?_⟩
   rw [g1.toks]; exact hm
 
+/-- `parse_intermediate_ref_data`: either there is no group (nothing consumed), or the group is
+    closed and the tokens after the closing parenthesis are returned; the only panic site is an
+    opening parenthesis without a closing one (last disjunct) -/
+theorem parseInterRef_sat (h : G ts e s) (toks : List Tok) :
+    Sat (parseInterRef (α := α) toks) s (fun r s' =>
+      (G ts e s' ∧ s'.cur = s.cur ∧
+        ((r.2 = toks ∧ (toks.head?.map (·.kind)) ≠ some .openParen) ∨
+         (∃ endPos, (toks.head?.map (·.kind)) = some .openParen ∧
+            toks.findIdx? (fun t => t.kind == .closeParen) = some endPos ∧
+            r.2 = toks.drop (endPos + 1)))) ∨
+      ((toks.head?.map (·.kind)) = some .openParen ∧
+        toks.findIdx? (fun t => t.kind == .closeParen) = none)) := by
+  unfold parseInterRef
+  split
+  · exact Sat.pure (Or.inl ⟨h, rfl, Or.inl ⟨rfl, by simp⟩⟩)
+  rename_i t0 tail
+  split
+  · rename_i hk
+    refine Sat.pure (Or.inl ⟨h, rfl, Or.inl ⟨rfl, ?_⟩⟩)
+    simp only [List.head?_cons, Option.map_some, ne_eq, Option.some.injEq]
+    simpa using hk
+  rename_i hk
+  split
+  · rename_i hnone
+    refine Sat.bind (Sat.modify ?_)
+    refine Sat.pure (Or.inr ⟨?_, hnone⟩)
+    simp only [List.head?_cons, Option.map_some, Option.some.injEq]
+    simpa using hk
+  rename_i pos hpos
+  have hpos : (List.head? (t0 :: tail)).map (·.kind) = some TK.openParen ∧
+      List.findIdx? (fun t => t.kind == TK.closeParen) (t0 :: tail) = some pos := by
+    refine ⟨?_, hpos⟩
+    simp only [List.head?_cons, Option.map_some, Option.some.injEq]
+    simpa using hk
+  dsimp only
+  split
+  · split
+    · exact Sat.pure (Or.inl ⟨h, rfl, Or.inr ⟨_, hpos.1, hpos.2, rfl⟩⟩)
+    · refine Sat.bind (Sat.perr ?_); intro evs
+      exact Sat.pure (Or.inl ⟨h.setEvs evs, rfl, Or.inr ⟨_, hpos.1, hpos.2, rfl⟩⟩)
+  · split
+    · refine Sat.bind (Sat.perr ?_); intro evs
+      exact Sat.pure (Or.inl ⟨h.setEvs evs, rfl, Or.inr ⟨_, hpos.1, hpos.2, rfl⟩⟩)
+    · rename_i hf
+      split
+      · refine Sat.bind (Sat.perr ?_); intro evs
+        exact Sat.pure (Or.inl ⟨h.setEvs evs, rfl, Or.inr ⟨_, hpos.1, hpos.2, rfl⟩⟩)
+      · split
+        · refine Sat.bind (Sat.perr ?_); intro evs
+          exact Sat.pure (Or.inl ⟨h.setEvs evs, rfl, Or.inr ⟨_, hpos.1, hpos.2, rfl⟩⟩)
+        · refine Sat.bind (tokensSpanP_sat ?_ ?_)
+          · intro h0; apply hf; rw [h0]; rfl
+          refine Sat.bind (Sat.perr ?_); intro evs
+          exact Sat.pure (Or.inl ⟨h.setEvs evs, rfl, Or.inr ⟨_, hpos.1, hpos.2, rfl⟩⟩)
+
+theorem findIdx_ref (p : Tok → Bool) (o c : Tok) (mid rest : List Tok) (ho : p o = false)
+    (hmid : ∀ t ∈ mid, p t = false) (hc : p c = true) :
+    (o :: (mid ++ c :: rest)).findIdx? p = some (mid.length + 1) := by
+  rw [List.findIdx?_cons]
+  simp only [ho, Bool.false_eq_true, if_false]
+  have : (mid ++ c :: rest).findIdx? p = some mid.length := by
+    induction mid with
+    | nil => simp [List.findIdx?_cons, hc]
+    | cons x xs ih =>
+      have hx := hmid x (by simp)
+      simp only [List.cons_append, List.findIdx?_cons, hx, Bool.false_eq_true, if_false]
+      rw [ih (fun t ht => hmid t (by simp [ht]))]
+      rfl
+  rw [this]; rfl
+
+theorem modifierFlag_openParen : modifierFlag .openParen = none := by decide
+
+/-- on the token runs `modifiers()` produces, the reference parser finds its closing parenthesis -/
+theorem parseInterRef_modseq (h : G ts e s) {a : Tok} {rest : List Tok} (hm : ModSeq true (a :: rest)) :
+    Sat (parseInterRef (α := α) rest) s (fun r s' => G ts e s' ∧ s'.cur = s.cur ∧ ModSeq true r.2 ∧
+      ∀ t ∈ r.2, t ∈ rest) := by
+  refine Sat.mono (parseInterRef_sat h rest) ?_
+  intro r s1 hr
+  cases hm with
+  | tok _ _ hf hrest =>
+    have hhead : (rest.head?.map (·.kind)) ≠ some .openParen := by
+      cases rest with
+      | nil => simp
+      | cons x l =>
+        have := hrest.head_flag
+        intro h0
+        simp only [List.head?_cons, Option.map_some, Option.some.injEq] at h0
+        rw [h0, modifierFlag_openParen] at this; cases this
+    rcases hr with ⟨g1, c1, ⟨h1, -⟩ | ⟨_, h2, -⟩⟩ | ⟨h2, -⟩
+    · rw [h1]; exact ⟨g1, c1, hrest, fun t ht => ht⟩
+    · exact absurd h2 hhead
+    · exact absurd h2 hhead
+  | ref _ o c mid rest' _ ha ho hmid hc hrest =>
+    have hfind := findIdx_ref (fun t => t.kind == .closeParen) o c mid rest'
+      (by simp [ho]) hmid (by simp [hc])
+    rcases hr with ⟨g1, c1, ⟨-, h1⟩ | ⟨endPos, -, h2, h3⟩⟩ | ⟨-, h2⟩
+    · exfalso; apply h1; simp [ho]
+    · rw [hfind] at h2
+      simp only [Option.some.injEq] at h2
+      subst h2
+      have : List.drop (mid.length + 1 + 1) (o :: (mid ++ c :: rest')) = rest' := by
+        simp [List.drop_append]
+      rw [this] at h3
+      rw [h3]
+      exact ⟨g1, c1, hrest, fun t ht => by simp [ht]⟩
+    · rw [hfind] at h2; cases h2
+
+theorem insert_contains_recipe (m : Modifiers) (k : TK) (f : Nat) (hf : modifierFlag k = some f)
+    (h : (m.insert f).contains Modifiers.RECIPE = true) :
+    m.contains Modifiers.RECIPE = true ∨ k = .at := by
+  by_cases hk : k = .at
+  · exact Or.inr hk
+  · left
+    have hf1 : f &&& 1 = 0 := by
+      cases k <;> simp [modifierFlag] at hf hk <;> subst hf <;> decide
+    simp only [Modifiers.contains, Modifiers.insert, Modifiers.RECIPE, Gen.MOD_RECIPE] at h ⊢
+    rw [Nat.and_or_distrib_right, hf1, Nat.or_zero] at h
+    exact h
+
+theorem parseModifiersLoop_sat (span : Span) (ie : Bool) (fuel : Nat) (mtoks : List Tok)
+    (m : Modifiers) (d : Option (Loc InterData)) (h : G ts e s) (hm : ModSeq ie mtoks) :
+    Sat (parseModifiersLoop (α := α) span ie fuel mtoks m d) s (fun r s' => G ts e s' ∧ s'.cur = s.cur ∧
+      (r.1.contains Modifiers.RECIPE = true →
+        m.contains Modifiers.RECIPE = true ∨ ∃ t ∈ mtoks, t.kind = .at)) := by
+  induction fuel generalizing mtoks m d s with
+  | zero =>
+    unfold parseModifiersLoop
+    exact Sat.pure ⟨h, rfl, fun hc => Or.inl hc⟩
+  | succ fuel ih =>
+    cases mtoks with
+    | nil =>
+      unfold parseModifiersLoop
+      exact Sat.pure ⟨h, rfl, fun hc => Or.inl hc⟩
+    | cons tok rest =>
+      unfold parseModifiersLoop
+      have hflag := hm.head_flag
+      obtain ⟨f, hf⟩ := Option.isSome_iff_exists.mp hflag
+      simp only [hf]
+      refine Sat.bind (Sat.pure ?_)
+      -- the rest of the loop, for whatever remains after the optional reference
+      have tail : ∀ (s1 : BP α) (rest' : List Tok) (d' : Option (Loc InterData)), G ts e s1 →
+          s1.cur = s.cur → ModSeq ie rest' → (∀ t ∈ rest', t ∈ rest) →
+          Sat (if (decide (f ≠ 0) && m.contains f) = true then do
+                perr "duplicate-modifier" [span]
+                parseModifiersLoop (α := α) span ie fuel rest' m d'
+              else parseModifiersLoop span ie fuel rest' (m.insert f) d') s1
+            (fun r s' => G ts e s' ∧ s'.cur = s.cur ∧
+              (r.1.contains Modifiers.RECIPE = true →
+                m.contains Modifiers.RECIPE = true ∨ ∃ t ∈ tok :: rest, t.kind = .at)) := by
+        intro s1 rest' d' g1 c1 hm' hsub
+        split
+        · refine Sat.bind (Sat.perr ?_); intro evs
+          refine Sat.mono (ih rest' m d' (g1.setEvs evs) hm') ?_
+          rintro r s2 ⟨g2, c2, hr⟩
+          refine ⟨g2, c2.trans c1, fun hc => ?_⟩
+          rcases hr hc with h1 | ⟨t, ht, hk⟩
+          · exact Or.inl h1
+          · exact Or.inr ⟨t, by simp [hsub t ht], hk⟩
+        · refine Sat.mono (ih rest' (m.insert f) d' g1 hm') ?_
+          rintro r s2 ⟨g2, c2, hr⟩
+          refine ⟨g2, c2.trans c1, fun hc => ?_⟩
+          rcases hr hc with h1 | ⟨t, ht, hk⟩
+          · rcases insert_contains_recipe m tok.kind f hf h1 with h2 | h2
+            · exact Or.inl h2
+            · exact Or.inr ⟨tok, by simp, h2⟩
+          · exact Or.inr ⟨t, by simp [hsub t ht], hk⟩
+      try dsimp only
+      split
+      · rename_i hc
+        simp only [Bool.and_eq_true] at hc
+        have hie : ie = true := hc.2
+        subst hie
+        refine Sat.bind (Sat.mono (parseInterRef_modseq h hm) ?_)
+        rintro r s1 ⟨g1, c1, hm1, hsub⟩
+        exact tail s1 r.2 r.1 g1 c1 hm1 hsub
+      · rename_i hc
+        refine tail s rest d h rfl ?_ (fun t ht => ht)
+        cases hm with
+        | tok _ _ _ hrest => exact hrest
+        | ref _ o c mid rest' hi ha _ _ _ _ =>
+          exfalso; apply hc; simp [ha, hi]
+
+theorem parseModifiers_sat (mtoks : List Tok) (pos : Nat) (h : G ts e s)
+    (hm : ModSeq (e.has Gen.EXT_INTERMEDIATE_PREPARATIONS) mtoks) :
+    Sat (parseModifiers (α := α) mtoks pos) s (fun r s' => G ts e s' ∧ s'.cur = s.cur ∧
+      (r.flags.val.contains Modifiers.RECIPE = true → ∃ t ∈ mtoks, t.kind = .at)) := by
+  unfold parseModifiers
+  split
+  · refine Sat.pure ⟨h, rfl, ?_⟩
+    intro hc
+    have : Modifiers.empty.contains Modifiers.RECIPE = true := hc
+    exact absurd this (by decide)
+  dsimp only
+  refine Sat.bind (hasExt_sat h ?_)
+  refine Sat.bind (Sat.mono (parseModifiersLoop_sat _ _ _ _ _ _ h hm) ?_)
+  rintro r s1 ⟨g1, c1, hr⟩
+  refine Sat.pure ⟨g1, c1, fun hc => ?_⟩
+  rcases hr hc with h1 | h1
+  · exact absurd h1 (by decide)
+  · exact h1
+
 end Cook
